@@ -9,7 +9,7 @@ from ..cases import Interp, Lin, Obj, Oracle, RankOracle, Sym, Undecided, weak_o
 from ..cfg import CFG, EXIT
 from ..core import Ctx
 from ..model import AnalysisError, FuncInfo, canon, dotted, kwarg, norm, walk_no_nested
-from .common import assigned_value, else_part, enclosing, expand_locals, prog, resolve_local
+from .common import assigned_value, else_part, enclosing, expand_locals, pargs, prog, resolve_local
 
 TERMS = {"S": Lin.atom("S"), "E": Lin.atom("E"),
          "L": Lin.atom("pivot") - Lin.atom("dist"), "H": Lin.atom("pivot") + Lin.atom("dist")}
@@ -316,7 +316,8 @@ def rule_sample(ctx: Ctx):
     if rm:
         c = rm[0].value
         avail = norm(rm[0].targets[0])
-        ok = len(c.args) == 3 and norm(c.args[0]) == PV and norm(c.args[1]) == avail and norm(c.args[2]) == dist
+        ca = pargs(ctx.model, c)
+        ok = len(ca) == 3 and norm(ca[0]) == PV and norm(ca[1]) == avail and norm(ca[2]) == dist
         ctx.check(ok, "R-C16-3", f, rm[0], "the zone around each drawn pivot is removed from the segments available to later pivots",
                   bad_detail="_remove_pivot_segment is not called with (pivot, available segments, min distance) / result not kept", key="remove")
     else:
